@@ -39,6 +39,7 @@ type step struct {
 	Back int    `json:"back,omitempty"` // rollback: blocks of the chain abandoned (a fork wins)
 	Ops  []op   `json:"ops,omitempty"`
 	Skip int    `json:"skip,omitempty"` // rounds skipped before this block (empty rounds)
+	Sync string `json:"sync,omitempty"` // block: its state is obtained from the wire-encoded state change ("msgpack" | "json") instead of execution
 }
 type hist struct {
 	Start int    `json:"start"` // round of the first block
@@ -105,6 +106,7 @@ func (t *ids) id(h string) int {
 }
 
 type blockRec struct {
+	synced  bool
 	blk     *block.Block
 	fork    int
 	round   int
@@ -278,6 +280,36 @@ func run(h hist, scratch string, kinds map[string]int) (res result) {
 			b.ClientStateHash = st8.GetRoot()
 			b.StateChangesCount = st8.GetChangeCount()
 			b.SetStateStatus(block.StateSuccessful)
+			if st.Sync != "" {
+				// the node does not execute the block: it receives the published state change over the
+				// wire and applies it (GetBlockStateChange -> ApplyBlockStateChange -> MergeDB)
+				if bsc, err := block.NewBlockStateChange(b); err == nil {
+					rx := block.StateChangeProvider().(*block.StateChange)
+					if st.Sync == "json" {
+						err = datastore.FromJSON(datastore.ToJSON(bsc).Bytes(), rx)
+					} else {
+						err = datastore.FromMsgpack(datastore.ToMsgpack(bsc).Bytes(), rx)
+					}
+					if err != nil {
+						res.fail = "state-change-wire-decode-fails"
+						res.failInfo = err.Error()
+						return
+					}
+					sb := block.NewBlock("", b.Round)
+					sb.Hash, sb.MinerID, sb.RoundRank = b.Hash, b.MinerID, b.RoundRank
+					sb.PrevBlock, sb.PrevHash = prev, prev.Hash
+					sb.ClientStateHash = append([]byte{}, b.ClientStateHash...)
+					sb.StateChangesCount = b.StateChangesCount
+					if err := sb.ApplyBlockStateChange(rx, c); err != nil || sb.ClientState == nil {
+						res.fail = "honest-state-change-rejected"
+						res.failInfo = fmt.Sprint(err)
+						return
+					}
+					b, st8 = sb, sb.ClientState
+					rec.blk, rec.synced, rec.micros = sb, true, nil
+					kinds["block-state-synced-"+st.Sync]++
+				}
+			}
 			_, changes, _, _ := st8.GetChanges()
 			for _, ch := range changes {
 				rec.adds = append(rec.adds, ch.New.GetHash())
@@ -462,7 +494,11 @@ func coqCase(h hist, res result) string {
 					ms = append(ms, fmt.Sprintf("(McDel %s)", hs(m.old)))
 				}
 			}
-			steps = append(steps, fmt.Sprintf("(PsBlock %s %s %s %s %s)", vh.Z(int64(br.round)), vh.List(ms), hl(br.adds), hl(br.dels), hl(br.nodeSet)))
+			if br.synced {
+				steps = append(steps, fmt.Sprintf("(PsSynced %s %s %s %s)", vh.Z(int64(br.round)), hl(br.adds), hl(br.dels), hl(br.nodeSet)))
+			} else {
+				steps = append(steps, fmt.Sprintf("(PsBlock %s %s %s %s %s)", vh.Z(int64(br.round)), vh.List(ms), hl(br.adds), hl(br.dels), hl(br.nodeSet)))
+			}
 		case "prune":
 			var rd []string
 			for _, ok := range so.readable {
@@ -525,7 +561,31 @@ func genHist(r *vh.Rand, big bool) hist {
 				st.Ops = append(st.Ops, op{K: o.K}, op{K: o.K, V: o.V})
 			}
 		}
+		if r.Chance(1, 4) {
+			st.Sync = []string{"msgpack", "json"}[r.Intn(2)]
+		}
 		h.Steps = append(h.Steps, st)
+	}
+	h.Steps = append(h.Steps, step{Kind: "prune"})
+	return h
+}
+
+// targetedSync: a stretch of blocks whose state is synced over the wire, finalized, then pruned past.
+func targetedSync(r *vh.Rand, variant int) hist {
+	count := r.Range(2, 5)
+	h := hist{Start: 90 + r.Intn(6), Count: count}
+	for i := 0; i < 14+count; i++ {
+		st := step{Kind: "block", Ops: []op{{K: i % 5, V: []string{"a", "b"}[i%2]}, {K: 5 + i%3, V: "c"}}}
+		if i%7 == 6 {
+			st.Ops = append(st.Ops, op{K: (i + 1) % 5})
+		}
+		if i >= 2 {
+			st.Sync = []string{"msgpack", "json"}[(i+variant)%2]
+		}
+		h.Steps = append(h.Steps, st)
+		if i > 8 && i%3 == 0 {
+			h.Steps = append(h.Steps, step{Kind: "prune"})
+		}
 	}
 	h.Steps = append(h.Steps, step{Kind: "prune"})
 	return h
@@ -600,7 +660,7 @@ func main() {
 	rep.CaseInputs = []interface{}{}
 	rep.Rule = "histories of 12-50 (oracle-only: 60-130) finalized blocks starting at rounds 60/88/95/99/100/101/180/195 (pruning aligns to multiples of 100), " +
 		"0-6 inserts/updates/deletes per block over 4-32 keys and 3 values (equal values re-inserted, delete-then-recreate of the identical value inside one block, " +
-		"deletes of absent keys), empty rounds, roll backs of the LFB by 1-3 blocks after which the rounds are finalized again with other blocks (1 in 2 starting with a block that changes nothing), prune_below_count 2-9, pruneClientState called after 1 in 6 blocks and at the end, on a RocksDB PNodeDB; " +
+		"deletes of absent keys), 1 in 4 blocks with their state obtained from the wire-encoded (msgpack / JSON) state change through ApplyBlockStateChange instead of execution, empty rounds, roll backs of the LFB by 1-3 blocks after which the rounds are finalized again with other blocks (1 in 2 starting with a block that changes nothing), prune_below_count 2-9, pruneClientState called after 1 in 6 blocks and at the end, on a RocksDB PNodeDB; " +
 		"after every prune the full state of every finalized block is iterated. non-trivial = at least one prune deleted nodes of an older block while a retained block was read; distinct by input"
 	cf := &vh.CasesFile{Imports: []string{"Base.Corr", "Model.Prune", "Corr.Prune"}, CaseType: "prc_case", CheckFn: "prc_check", Shard: 12}
 	logging.Logger = zap.NewNop()
@@ -609,6 +669,7 @@ func main() {
 	round.SetupEntity(memorystore.GetStorageProvider())
 	block.SetupEntity(memorystore.GetStorageProvider())
 	block.SetupBlockSummaryEntity(memorystore.GetStorageProvider())
+	block.SetupStateChange(memorystore.GetStorageProvider())
 	node.Self.Node.Type = node.NodeTypeMiner
 	scratch := filepath.Join("/var/tmp/vs", fmt.Sprintf("codec-c27-%d", os.Getpid()))
 	_ = os.MkdirAll(scratch, 0o755)
@@ -656,10 +717,13 @@ func main() {
 		for v := 0; v < 4; v++ {
 			handle(targetedDeep(rnd, v), true)
 		}
-		for i := 0; i < o.N(32, 300); i++ {
+		for v := 0; v < 2; v++ {
+			handle(targetedSync(rnd, v), true)
+		}
+		for i := 0; i < o.N(22, 300); i++ {
 			handle(genHist(rnd, false), true)
 		}
-		for i := 0; i < o.N(8, 100); i++ {
+		for i := 0; i < o.N(5, 100); i++ {
 			handle(genHist(rnd, true), false)
 		}
 	}
